@@ -1,7 +1,8 @@
 (* M14 (b): pyflyby._livepatch.livepatch and its handlers (_livepatch__dict / __function / __method /
    __class / __setattr / __object / __module, _get_definition_module), as repaired by
-   fixes/F29-livepatch-class-bases.diff, fixes/C16a-livepatch-object-slot-setattr.diff and
-   fixes/C16d-livepatch-function-kwdefaults.diff.
+   fixes/F29-livepatch-class-bases.diff, fixes/C16a-livepatch-object-slot-setattr.diff,
+   fixes/C16d-livepatch-function-kwdefaults.diff, fixes/C16b-livepatch-function-cell-rebind.diff and
+   fixes/C16e-livepatch-class-bases-identity.diff.
    Model only; proofs are in PatchProofs.v.
 
    The handlers are written with open recursion (`rec` = the nested call of `livepatch`), the
@@ -137,9 +138,16 @@ Definition cell_ok (h : heap) (a b : addr) : bool :=
   | _, _ => false
   end.
 
+Definition cell_val (h : heap) (c : addr) : option addr :=
+  match lookup h c with Some (OCell v) => Some v | _ => None end.
+
 Fixpoint cells_ok (h : heap) (l1 l2 : list addr) : bool :=
   match l1, l2 with
-  | a :: r1, b :: r2 => cell_ok h a b && cells_ok h r1 r2
+  | c1 :: r1, c2 :: r2 =>
+      match cell_val h c1, cell_val h c2 with
+      | Some a, Some b => cell_ok h a b && cells_ok h r1 r2
+      | _, _ => false
+      end
   | _, _ => true                      (* zip stops at the shorter one; lengths were compared before *)
   end.
 
@@ -152,10 +160,24 @@ Definition func_compatible (h : heap) (fo fn : obj) : bool :=
   end.
 
 (*  for oldcell, newcell in zip(old_closure, new_closure):
-        livepatch(oldcell.cell_contents, newcell.cell_contents, ...)          # result ignored  *)
+        oldcellv = oldcell.cell_contents; newcellv = newcell.cell_contents
+        updated = livepatch(oldcellv, newcellv, ...)
+        if updated is not oldcellv: oldcell.cell_contents = updated       # C16-b repair            *)
+Definition cell_step (rec : recT) (stack : list addr) (c1 c2 : addr) (s : st) : res :=
+  match cell_val (hp s) c1, cell_val (hp s) c2 with
+  | Some a, Some b =>
+      bind (rec s stack a b) (fun s' u =>
+        if (u =? a)%N then Ok s' c1
+        else match cell_val (hp s') c1 with
+             | Some _ => Ok (upd s' c1 (OCell u)) c1
+             | None => Raised s'
+             end)
+  | _, _ => Raised s                                      (* ValueError: empty cell *)
+  end.
+
 Fixpoint patch_cells (rec : recT) (stack : list addr) (l1 l2 : list addr) (acc : res) : res :=
   match l1, l2 with
-  | a :: r1, b :: r2 => patch_cells rec stack r1 r2 (bind acc (fun s _ => rec s stack a b))
+  | c1 :: r1, c2 :: r2 => patch_cells rec stack r1 r2 (bind acc (fun s _ => cell_step rec stack c1 c2 s))
   | _, _ => acc
   end.
 
@@ -270,9 +292,43 @@ Definition slots_differ (h : heap) (cd1 cd2 : list (key * addr)) : bool :=
   | _, _ => true
   end.
 
-(*  if olddict.get("__slots__") != newdict.get("__slots__"): return newclass
-    if oldclass.__bases__ != newclass.__bases__:
-        try: oldclass.__bases__ = newclass.__bases__
+(*  old_bases_by_name = dict(((b.__module__, b.__name__), b) for b in oldclass.__bases__)
+    for newbase in newclass.__bases__:
+        oldbase = old_bases_by_name.get((newbase.__module__, newbase.__name__))
+        if oldbase is not None: newbase = livepatch(oldbase, newbase, ...)
+        new_bases.append(newbase)                                        # C16-e repair            *)
+Definition class_key (h : heap) (c : addr) : option (option key * key) :=
+  match lookup h c with Some (OClass n md _ _ _) => Some (md, n) | _ => None end.
+
+Definition same_class_key (a b : option (option key * key)) : bool :=
+  match a, b with
+  | Some (m1, n1), Some (m2, n2) => optN_eqb m1 m2 && (n1 =? n2)%N
+  | _, _ => false
+  end.
+
+(* dict semantics: the last base with that (module, name) *)
+Fixpoint find_old_base (h : heap) (obs : list addr) (nb : addr) : option addr :=
+  match obs with
+  | [] => None
+  | ob :: r => match find_old_base h r nb with
+               | Some x => Some x
+               | None => if same_class_key (class_key h ob) (class_key h nb) then Some ob else None
+               end
+  end.
+
+Fixpoint map_bases (rec : recT) (stack : list addr) (obs nbs : list addr) (s : st) (acc : list addr)
+                   (k : st -> list addr -> res) : res :=
+  match nbs with
+  | [] => k s (rev acc)
+  | nb :: r =>
+      match find_old_base (hp s) obs nb with
+      | Some ob => bind (rec s stack ob nb) (fun s' u => map_bases rec stack obs r s' (u :: acc) k)
+      | None => map_bases rec stack obs r s (nb :: acc) k
+      end
+  end.
+
+(*  if oldclass.__bases__ != new_bases:
+        try: oldclass.__bases__ = new_bases
         except TypeError: return newclass
     unpatchable = {"__dict__", "__weakref__"}
     oldnames = set(olddict) - unpatchable; newnames = set(newdict) - unpatchable
@@ -283,11 +339,10 @@ Definition slots_differ (h : heap) (cd1 cd2 : list (key * addr)) : bool :=
     oldclass.__doc__ = newclass.__doc__
     for name in sorted(names): _livepatch__setattr(oldclass, newclass, name, ...)
     return oldclass                                                                          *)
-Definition patch_class (rec : recT) (s : st) (stack : list addr) (c_old c_new : addr) : res :=
+Definition patch_class_body (rec : recT) (stack : list addr) (c_old c_new : addr) (s : st) (mapped : list addr) : res :=
   match lookup (hp s) c_old, lookup (hp s) c_new with
   | Some (OClass n1 m1 cd1 b1 sl1), Some (OClass n2 m2 cd2 b2 sl2) =>
-      if slots_differ (hp s) cd1 cd2 then Ok s c_new
-      else if negb (listN_eqb b1 b2) && negb (bases_ok c_old c_new) then Ok s c_new
+      if negb (listN_eqb b1 mapped) && negb (bases_ok c_old c_new) then Ok s c_new
       else
         let unp := fun k => (k =? k_dict nm)%N || (k =? k_weakref nm)%N in
         let on := filter (fun k => negb (unp k)) (akeys cd1) in
@@ -299,8 +354,27 @@ Definition patch_class (rec : recT) (s : st) (stack : list addr) (c_old c_new : 
         let common := filter (fun k => memN k nn && negb (memN k slotnames) && negb (k =? k_slots nm)%N
                                        && negb (k =? k_doc nm)%N) on in
         let cd1c := match aget cd2 (k_doc nm) with Some d => aset cd1b (k_doc nm) d | None => cd1b end in
-        let s1 := upd s c_old (OClass n1 m1 cd1c b2 sl1) in
+        let s1 := upd s c_old (OClass n1 m1 cd1c mapped sl1) in
         fold_left (setattr_class rec stack c_old c_new) (sortN common) (Ok s1 c_old)
+  | _, _ => Raised s
+  end.
+
+(*  if olddict.get("__slots__") != newdict.get("__slots__"): return newclass ; <bases> ; <body>  *)
+Definition patch_class (rec : recT) (s : st) (stack : list addr) (c_old c_new : addr) : res :=
+  match lookup (hp s) c_old, lookup (hp s) c_new with
+  | Some (OClass n1 m1 cd1 b1 sl1), Some (OClass n2 m2 cd2 b2 sl2) =>
+      if slots_differ (hp s) cd1 cd2 then Ok s c_new
+      else map_bases rec stack b1 b2 s [] (patch_class_body rec stack c_old c_new)
+  | _, _ => Raised s
+  end.
+
+(* the code before the C16-e repair (kept for the C16-e witness only):
+     oldclass.__bases__ = newclass.__bases__   - the bases of the NEW (scratch) class, unmapped *)
+Definition patch_class_v0 (rec : recT) (s : st) (stack : list addr) (c_old c_new : addr) : res :=
+  match lookup (hp s) c_old, lookup (hp s) c_new with
+  | Some (OClass n1 m1 cd1 b1 sl1), Some (OClass n2 m2 cd2 b2 sl2) =>
+      if slots_differ (hp s) cd1 cd2 then Ok s c_new
+      else patch_class_body rec stack c_old c_new s b2
   | _, _ => Raised s
   end.
 
@@ -403,7 +477,7 @@ Definition dispatch (rec : recT) (t : ty) (s : st) (stack : list addr) (old new 
   | TyClass => patch_class rec s stack old new
   | TyDict => patch_dict rec s stack old new
   | TyModule => patch_module rec s stack old new
-  | TyInst _ | TyStatic | TyClassM | TyPrim _ => patch_object rec s stack old new
+  | TyInst _ | TyStatic | TyClassM | TyCell | TyPrim _ => patch_object rec s stack old new
   end.
 
 (*  new_modname = _get_definition_module(new)
